@@ -21,7 +21,7 @@ Proof. repeat split. Qed.
 Example ex_uint64_result : from_go (GNum KUint64 18446744073709551615) = Throw /\ returnable (GNum KUint64 maxint) = true.
 Proof. split; reflexivity. Qed.
 Example ex_call : call lib0 [KInt64; KString; KBool] [SInt 5; SStr "x"; SBool true] (Some (GNum KInt32 9)) =
-  ([GNum KInt64 5; GStr "x"; GBool true], Ok (SInt 9)).
+  ([GNum KInt64 5; GStr KString "x"; GBool KBool true], Ok (SInt 9)).
 Proof. vm_compute. reflexivity. Qed.
 Example ex_all_ok : all_ok lib0 [KInt64; KString; KBool] [SInt 5; SStr "x"; SBool true] = true.
 Proof. reflexivity. Qed.
@@ -31,4 +31,15 @@ Example ex_unsupported : call lib0 [KOther] [SOther] None = ([], Throw).
 Proof. reflexivity. Qed.
 Example ex_generic : generic lib0 KInt8 (SInt 300) = Throw /\ generic lib0 KInt16 (SInt 300) = Ok (GNum KInt16 300)
                   /\ generic lib0 KUint8 (SFloat 255.9) = Ok (GNum KUint8 255).
+Proof. repeat split; vm_compute; reflexivity. Qed.
+
+(* defined types: `type Name string`, `type Small int8` *)
+Example ex_named : to_go lib0 (KNamed KString) (SStr "n") = Ok (GStr (KNamed KString) "n")
+                /\ dyn_kind (GStr (KNamed KString) "n") = KNamed KString
+                /\ to_go lib0 (KNamed KInt8) (SInt 300) = Throw
+                /\ call lib0 [KNamed KBool; KNamed KFloat64] [SBool true; SFloat 1.5] None =
+                   ([GBool (KNamed KBool) true; GFlt (KNamed KFloat64) 1.5], NoResult).
+Proof. repeat split; vm_compute; reflexivity. Qed.
+Example ex_representable : representable lib0 (SInt 127) KInt8 = true /\ representable lib0 (SInt 128) KInt8 = false
+                        /\ representable lib0 (SFloat 1.5) KFloat32 = true.
 Proof. repeat split; vm_compute; reflexivity. Qed.
